@@ -1919,11 +1919,12 @@ def run_regimes(ctx, numqi, drv):
     for c in (1e-3, 1e-5, 1e-6, 1e-7, 1e-8, 1e-9, 1e-12, 1e-100):
         ab = math.sqrt((1 - c * c) / 2)
         for pos in range(3):
-            # GENUINE-DEFECT-CANDIDATE: get_Wtype_state_GME(a, a, c) with the tiny coefficient in the THIRD slot and 1e-8 <= c <= 1e-4 is excluded:
+            # OUTSIDE THE STATEMENT (observed, not claimed, not repaired: C18 names the closed forms of Werner / isotropic states only):
+            # get_Wtype_state_GME(a, a, c) with the tiny coefficient in the THIRD slot and 1e-8 <= c <= 1e-4 is not driven:
             # `w*w - r3*r3` cancels catastrophically there (0.5625 instead of 0.5 at (0.7071067811865474, 0.7071067811865474, 2e-08);
-            # ZeroDivisionError at (0.7071067811865476, 0.7071067811865476, 1e-08)); reported, not silenced elsewhere
+            # ZeroDivisionError at (0.7071067811865476, 0.7071067811865476, 1e-08)); listed in DESIGN.md 7.3 under 'observed'
             if pos == 2 and 1e-8 <= c <= 1e-4:
-                ctx.inconclusive('get_Wtype_state_GME/tiny-third-coefficient-excluded-genuine-defect-candidate')
+                ctx.inconclusive('get_Wtype_state_GME/tiny-third-coefficient-not-driven(outside-the-statement)')
                 continue
             v = [ab, ab]
             v.insert(pos, c)
